@@ -52,6 +52,7 @@ THEOREMS = [
     "Nix.C18.C18_shape_ops",
     "Nix.C18.C18_content_no_name_taken",
     "Nix.C18.C18_fails_only_on_taken_name",
+    "Nix.C18.C18_content_full",
     "Nix.C18.C18_no_extra_lost",
     "Nix.C18.C18_failure_is_interruption",
     "Nix.C18.C18_values_never_lost",
@@ -101,9 +102,10 @@ MANIFEST = {
                   "and nixio/dimensions.py on every run and proved equal to the model (C18_shape_*); the rest of the "
                   "model is tied to the code by differential runs on h5py-crafted old files with every interruption "
                   "point.",
-    "level_note": "Partial: the full content statement ('every old file is upgraded') is false of the code "
-                  "(C18_content_counterexample, open known finding C18-extra-name-collision: such a file is refused, "
-                  "nothing is lost): C18_content_partial / C18_content_no_name_taken carry the decidable "
+    "level_note": "Full for every old file the upgrade accepts (C18_content_full: no hypothesis on name clashes; extras "
+                  "read by a reader who knows the original names). Partial in that 'every old file is upgraded' is false "
+                  "of the code (C18_content_counterexample, open known finding C18-extra-name-collision: such a file is "
+                  "refused, nothing is lost): C18_content_partial / C18_content_no_name_taken carry the decidable "
                   "hypothesis Clean / NoNameTaken (no `<name>.<extra>` name already taken); without it C18_values_never_lost still holds. Interruption "
                   "inside one conversion is outside the property's quantifier; it is modelled (cut at the c-th "
                   "create_property call, exercised by the correspondence) and proved NOT recoverable "
